@@ -1,4 +1,4 @@
-"""python tcsim/mkwitness.py <PROP> <failing scenario json> <out witness json> [inv] : shrink a failing scenario while the same
+"""python tcsim/mkwitness.py <PROP> <failing scenario json> <out witness json> [inv [substring]] : shrink a failing scenario while the same
 (property, invariant[, zone]) discrepancy persists and store it as a committed witness."""
 import json, sys
 from pathlib import Path
@@ -6,12 +6,14 @@ sys.path.insert(0, str(Path(__file__).resolve().parents[1]))
 from tcsim import core, check
 pid, src, dst = sys.argv[1], sys.argv[2], sys.argv[3]
 inv = sys.argv[4] if len(sys.argv) > 4 else None
+must = sys.argv[5] if len(sys.argv) > 5 else None     # substring the discrepancy (message + detail) has to keep containing
 eng = check.get_engine(check.PROPS[pid]['engine'])
 scn = json.loads(Path(src).read_text())['scenario']
 ctx = eng.setup_worker()
 try:
     def sig(discs):
-        return sorted({(d['prop'], d['inv'], d.get('zone')) for d in discs if d['prop'] == pid and (inv is None or d['inv'] == inv)})
+        return sorted({(d['prop'], d['inv'], d.get('zone')) for d in discs if d['prop'] == pid and (inv is None or d['inv'] == inv)
+                       and (must is None or must in (d['msg'] + json.dumps(d.get('detail'), default=str)))})
     obs, discs = check.run_one(eng, scn, ctx)
     s0 = sig(discs)
     assert s0, 'scenario does not fail'
